@@ -108,9 +108,6 @@ theorem Abs_fill (t : Table) (M : Nat → Option Nat) (abs : Abs t M) (k v q : N
 
 /-! ### the freshly cleared table -/
 
-/-- `N` buckets all holding the invalid key, `entries_ = 0` -/
-def emptyTable (N : Nat) : Table := { s := fun _ => none, N := N, entries := 0 }
-
 theorem occ_empty : ∀ n, occ (fun _ => none) n = 0 := by
   intro n; induction n with
   | zero => rfl
